@@ -38,8 +38,6 @@ func runOutdir(t []string) string {
 	s.ca.script = func(i int) caOutcome {
 		return caOutcome{kind: "ok", ttl: time.Hour, signer: byte('A' + (i/2)%2), bundle: "-"}
 	}
-	stop := make(chan struct{})
-	var wg sync.WaitGroup
 	var mu sync.Mutex
 	violation := ""
 	fail := func(v string) {
@@ -49,74 +47,83 @@ func runOutdir(t []string) string {
 		}
 		mu.Unlock()
 	}
-	guard := func(f func()) {
-		wg.Add(1)
-		go func() {
-			defer wg.Done()
-			defer func() {
-				if e := recover(); e != nil {
-					fail(fmt.Sprintf("panic %v", e))
-				}
-			}()
-			f()
-		}()
+	read := func(name string) []byte {
+		b, _ := os.ReadFile(filepath.Join(dir, name))
+		return b
 	}
-	for g := 0; g < n; g++ {
-		g := g
+	// many short bursts, each followed by a quiescent look at the files: a permanent key/cert mismatch arises when a
+	// caller that still holds the previous pair and the caller that fetched the new one write at the same time
+	rounds := ms / 10
+	if rounds < 1 {
+		rounds = 1
+	}
+	next := 0
+	for round := 0; round < rounds && violation == ""; round++ {
+		stop := make(chan struct{})
+		var wg sync.WaitGroup
+		guard := func(f func()) {
+			wg.Add(1)
+			go func() {
+				defer wg.Done()
+				defer func() {
+					if e := recover(); e != nil {
+						fail(fmt.Sprintf("panic %v", e))
+					}
+				}()
+				f()
+			}()
+		}
+		for g := 0; g < n; g++ {
+			g := g
+			guard(func() {
+				for k := 0; ; k++ {
+					select {
+					case <-stop:
+						return
+					default:
+					}
+					name := security.WorkloadKeyCertResourceName
+					if (g+k)%4 == 0 {
+						name = security.RootCertReqResourceName
+					}
+					if _, err := s.sc.GenerateSecret(name); err != nil {
+						fail("gen-error " + err.Error())
+						return
+					}
+				}
+			})
+		}
 		guard(func() {
-			for k := 0; ; k++ {
+			for {
 				select {
 				case <-stop:
 					return
 				default:
 				}
-				name := security.WorkloadKeyCertResourceName
-				if (g+k)%4 == 0 {
-					name = security.RootCertReqResourceName
+				s.q.mu.Lock()
+				var e *qEntry
+				if next < len(s.q.entries) {
+					e = s.q.entries[next]
+					e.fired = true
+					next++
 				}
-				if _, err := s.sc.GenerateSecret(name); err != nil {
-					fail("gen-error " + err.Error())
-					return
+				s.q.mu.Unlock()
+				if e != nil {
+					_ = e.task()
 				}
+				time.Sleep(300 * time.Microsecond)
 			}
 		})
-	}
-	guard(func() {
-		next := 0
-		for {
-			select {
-			case <-stop:
-				return
-			default:
-			}
-			s.q.mu.Lock()
-			var e *qEntry
-			if next < len(s.q.entries) {
-				e = s.q.entries[next]
-				e.fired = true
-				next++
-			}
-			s.q.mu.Unlock()
-			if e != nil {
-				_ = e.task()
-			}
-			time.Sleep(300 * time.Microsecond)
+		time.Sleep(8 * time.Millisecond)
+		close(stop)
+		wg.Wait()
+		key, chain := read("key.pem"), read("cert-chain.pem")
+		if leaf := leafOf(chain); leaf == nil || !bytes.Equal(leaf.RawSubjectPublicKeyInfo, pubOfKey(key)) {
+			return fmt.Sprintf("violated outdir-pair files on disk do not belong together (round %d)", round)
 		}
-	})
-	time.Sleep(time.Duration(ms) * time.Millisecond)
-	close(stop)
-	wg.Wait()
+	}
 	if violation != "" {
 		return "violated outdir-" + violation
-	}
-	read := func(name string) []byte {
-		b, _ := os.ReadFile(filepath.Join(dir, name))
-		return b
-	}
-	key, chain := read("key.pem"), read("cert-chain.pem")
-	leaf := leafOf(chain)
-	if leaf == nil || !bytes.Equal(leaf.RawSubjectPublicKeyInfo, pubOfKey(key)) {
-		return "violated outdir-pair files on disk do not belong together"
 	}
 	it, err := s.sc.GenerateSecret(security.WorkloadKeyCertResourceName)
 	if err != nil {
